@@ -305,20 +305,40 @@ Within(g, o) ==
     [] o.op = "add_module"    -> <<o.a, o.b>> \notin g.M /\ Card(ModulesOf(g, o.a)) < g.lim.modules
     [] OTHER                  -> FALSE
 
-\* the accepted call fills a registry exactly to a limit (coverage counter of the trace checker)
-AtLimit(g, o) ==
-  Within(g, o) /\
-  CASE o.op = "allow"         -> \/ Card(PairsOfKey(g.S, o.a)) = g.lim.rpk - 1
-                                 \/ o.a \notin KeysOfTopic(g.S, o.b) /\ Card(KeysOfTopic(g.S, o.b)) = g.lim.kpt - 1
-    [] o.op = "add_topic"     -> Card(g.T) = g.lim.topics - 1
-    [] o.op = "add_issuer"    -> Card(g.I) = g.lim.issuers - 1
-    [] o.op = "bind"          -> Card(g.S) = g.lim.max - 1
-    [] o.op = "bind_batch"    -> Card(g.S) + Len(o.xs) = g.lim.max \/ Len(o.xs) = g.lim.batch
-    [] o.op = "set_doc"       -> o.a \notin DOMAIN g.D /\ NDocs(g) = g.lim.max - 1
-    [] o.op = "add_identity"  -> Len(o.xs) = g.lim.countries
-    [] o.op = "add_countries" -> Len(g.pr[o.a].cs) + Len(o.xs) = g.lim.countries
-    [] o.op = "add_module"    -> Card(ModulesOf(g, o.a)) = g.lim.modules - 1
-    [] OTHER                  -> FALSE
+\* coverage counters of the trace checker: the limits that refuse the call (one past) /
+\* that the accepted call fills exactly
+OverSet(g, o) ==
+  IF Redundant(g, o) THEN {} ELSE
+  CASE o.op = "allow"         -> {x \in {"rpk"} : Card(PairsOfKey(g.S, o.a)) >= g.lim.rpk}
+                                 \cup {x \in {"kpt"} : o.a \notin KeysOfTopic(g.S, o.b)
+                                                          /\ Card(KeysOfTopic(g.S, o.b)) >= g.lim.kpt}
+    [] o.op = "add_topic"     -> {x \in {"topics"} : Card(g.T) >= g.lim.topics}
+    [] o.op = "add_issuer"    -> {x \in {"issuers"} : Card(g.I) >= g.lim.issuers}
+    [] o.op = "bind"          -> {x \in {"tokens"} : Card(g.S) >= g.lim.max}
+    [] o.op = "bind_batch"    -> {x \in {"batch"} : Len(o.xs) > g.lim.batch}
+                                 \cup {x \in {"tokens"} : Card(g.S) + Len(o.xs) > g.lim.max}
+    [] o.op = "set_doc"       -> {x \in {"docs"} : NDocs(g) >= g.lim.max}
+    [] o.op = "add_identity"  -> {x \in {"countries"} : Len(o.xs) > g.lim.countries}
+    [] o.op = "add_countries" -> {x \in {"countries"} : Len(g.pr[o.a].cs) + Len(o.xs) > g.lim.countries}
+    [] o.op = "add_module"    -> {x \in {"modules"} : Card(ModulesOf(g, o.a)) >= g.lim.modules}
+    [] OTHER                  -> {}
+
+AtSet(g, o) ==
+  IF ~Within(g, o) THEN {} ELSE
+  CASE o.op = "allow"         -> {x \in {"rpk"} : Card(PairsOfKey(g.S, o.a)) = g.lim.rpk - 1}
+                                 \cup {x \in {"kpt"} : o.a \notin KeysOfTopic(g.S, o.b)
+                                                          /\ Card(KeysOfTopic(g.S, o.b)) = g.lim.kpt - 1}
+    [] o.op = "add_topic"     -> {x \in {"topics"} : Card(g.T) = g.lim.topics - 1}
+    [] o.op = "add_issuer"    -> {x \in {"issuers"} : Card(g.I) = g.lim.issuers - 1}
+    [] o.op = "bind"          -> {x \in {"tokens"} : Card(g.S) = g.lim.max - 1}
+    [] o.op = "bind_batch"    -> {x \in {"batch"} : Len(o.xs) = g.lim.batch}
+                                 \cup {x \in {"tokens"} : Card(g.S) + Len(o.xs) = g.lim.max}
+    [] o.op = "set_doc"       -> {x \in {"docs"} : o.a \notin DOMAIN g.D /\ NDocs(g) = g.lim.max - 1}
+    [] o.op = "add_identity"  -> {x \in {"countries"} : Len(o.xs) = g.lim.countries}
+    [] o.op = "add_countries" -> {x \in {"countries"} : Len(g.pr[o.a].cs) + Len(o.xs) = g.lim.countries}
+    [] o.op = "add_module"    -> {x \in {"modules"} : Card(ModulesOf(g, o.a)) = g.lim.modules - 1}
+    [] OTHER                  -> {}
+LimitNames == {"rpk", "kpt", "topics", "issuers", "tokens", "batch", "docs", "countries", "modules"}
 
 (* monitors -----------------------------------------------------------------------------------*)
 Flavours == {"keys", "cti", "binder", "docs", "irs", "modules"}
